@@ -199,7 +199,7 @@ def post_to_crs(args, kw, res, exc, snap):
             # K6: cut into more parts although no vertex is within 10 degrees of the antimeridian; same point set (area / length preserved against the un-chopped conversion)
             with oracle_section():
                 plain = self.to_crs(target, resolution) if resolution is not None else self.to_crs(target)
-            same_set = abs(r.area - plain.geom.area) <= 1e-6 * max(plain.geom.area, 1e-300) and abs(r.length - plain.geom.length) <= 0.5 * max(r.length, 1e-300)
+            same_set = abs(r.area - plain.geom.area) <= 1e-4 * max(plain.geom.area, 1e-300) and abs(r.length - plain.geom.length) <= 0.5 * max(r.length, 1e-300)
             if same_set:
                 key = "antimeridian-chop-far-from-antimeridian"
         return _mon.fail("Geometry.to_crs", wit({"why": "crs / type / part structure / vertex count changed", "out": r.wkt[:200], "out_crs": str(res.crs)[:30], "wrapdateline": bool(wrapdateline), "parts": [len(pa), len(pb)]}), key=key, cls=g.geom_type)
